@@ -6,19 +6,19 @@ Import ListNotations.
 Open Scope N_scope.
 
 (* lookup before any builder rule: an extend function for (S, T) is what Build / Assign yield for S -> T *)
-Theorem C06_extend_takes_precedence : forall e cc out FT ext sm f ctx lv s t st fi p st',
+Theorem C06_extend_takes_precedence : forall e cc out exc FT ext sm f ctx lv s t st fi p st',
   ext_get FT ext s t (avail_of_tab (b_tab st) ctx) = GFound fi ->
-  build e cc out FT ext sm (S f) ctx lv s t st = GOk (p, st') -> calls (CFn fi) p.
+  build e cc out exc FT ext sm (S f) ctx lv s t st = GOk (p, st') -> calls (CFn fi) p.
 Proof. exact extend_takes_precedence. Qed.
-Theorem C06_extend_takes_precedence_assign : forall e cc out FT ext sm f ctx lv u s t st fi a st',
+Theorem C06_extend_takes_precedence_assign : forall e cc out exc FT ext sm f ctx lv u s t st fi a st',
   ext_get FT ext s t (avail_of_tab (b_tab st) ctx) = GFound fi ->
-  assign e cc out FT ext sm (S f) ctx false lv u s t st = GOk (a, st') -> exists p, a = ASet p /\ calls (CFn fi) p.
+  assign e cc out exc FT ext sm (S f) ctx false lv u s t st = GOk (a, st') -> exists p, a = ASet p /\ calls (CFn fi) p.
 Proof. exact extend_takes_precedence_assign. Qed.
 (* ... then a declared or already generated method with that signature *)
-Theorem C06_method_takes_precedence : forall e cc out FT ext sm f ctx lv s t st id p st',
+Theorem C06_method_takes_precedence : forall e cc out exc FT ext sm f ctx lv s t st id p st',
   ext_get FT ext s t (avail_of_tab (b_tab st) ctx) = GAbsent ->
   tab_get (b_tab st) s t (avail_of_tab (b_tab st) ctx) = GFound id ->
-  build e cc out FT ext sm (S f) ctx lv s t st = GOk (p, st') -> calls (CMeth id) p.
+  build e cc out exc FT ext sm (S f) ctx lv s t st = GOk (p, st') -> calls (CMeth id) p.
 Proof. exact method_takes_precedence. Qed.
 Theorem C06_lookup_sound : forall tab s t avail id,
   tab_get tab s t avail = GFound id ->
@@ -33,9 +33,9 @@ Theorem C06_call_yields_function_result : forall e M F f cx fi args fl src st fd
 Proof. exact call_succeeds. Qed.
 
 (* contexts: unavailable => generation fails; available => handed on unchanged *)
-Theorem C06_unavailable_context_fails_lookup : forall e cc out FT ext sm f ctx lv s t st,
+Theorem C06_unavailable_context_fails_lookup : forall e cc out exc FT ext sm f ctx lv s t st,
   ext_get FT ext s t (avail_of_tab (b_tab st) ctx) = GUnsat ->
-  build e cc out FT ext sm (S f) ctx lv s t st = GDiag D_CONTEXT_UNSAT.
+  build e cc out exc FT ext sm (S f) ctx lv s t st = GDiag D_CONTEXT_UNSAT.
 Proof. exact extend_without_context_fails. Qed.
 Theorem C06_missing_context_on_declared_method_fails : forall e ctx need st m r dsrc s0,
   existsb (ty_eqb need) (bc_context ctx) = false ->
